@@ -19,6 +19,7 @@ def run(chk, tier):
         if name == plan[0][0]:
             spec_checked.check_validate_and_subtract(chk, lib)
             spec_checked.check_loop_progress(chk, lib)
+            spec_checked.check_shapes(chk, lib)
         if name in ("test_schema", "vlayout"):
             spec_checked.check_block_length_state(chk, lib)
     chk.extra["entry_points_analysed"] = tot[0]
@@ -30,7 +31,10 @@ def run(chk, tier):
                      "its path by branch facts K <= n (initial header test and successful validate_and_subtract calls, K = "
                      "bytes accounted) with read_end - view.begin <= K implied by linear combination. Exactness: on loop-free "
                      "valid=true paths the reported size equals the accounted total. Rows: validate_and_subtract (size < n "
-                     "=> invalid and unchanged, else subtract), the visitor callbacks validate before descending. State: the visitor's group_block_length is the wire "
+                     "=> invalid and unchanged, else subtract), the visitor callbacks validate before descending. Shape rows: each callback validates its own bytes before "
+                     "visiting children, returns `true` (stop) exactly when validation failed, and the entry point returns "
+                     "{false, 0} for a null / too short view and {valid, n - remaining} otherwise (structural guards and "
+                     "returned expressions in normal form). State: the visitor's group_block_length is the wire "
                      "blockLength of the group being traversed at every on_entry (on_group stores its own header's value before "
                      "visiting, every on_group instantiation restores the previous value on all E2 paths, nothing else writes "
                      "the field). Bounded "
